@@ -253,6 +253,12 @@ class ScriptedPeer(PeerBase):
         if name == "frag1":
             k = args[0] if args else self.header_len()
             return self.send(s, v[:k], 0, n, 1)
+        if name == "fragexc":           # the first k bytes of a regular answer, then (after d) an exception frame: the inverter gave up the answer it had begun
+            e = self.exception(req, args[1])
+            if e is None:
+                return
+            self.send(s, v[:args[0]], 0, n, 1)
+            return self.send(s, e, (args[2] if len(args) > 2 else 0), n, 2)
         if name == "pieces":            # arbitrary pieces: args = [(bytes, delay), ...]
             for i, (data, d) in enumerate(args[0]):
                 self.send(s, data, d, n, i + 1)
